@@ -127,11 +127,14 @@ L_T = 4
 def serial_bound(sc, extra_delay=0, extra_stall=0):
     """The analytic serial bound of property C05, in timesteps."""
     v = StepView(sc)
-    minrate = min(v.hot_rate, v.cold_rate)
+    # a negative cold rate is the shipped 'real-time' mode: the cold tier is an extension of the hot one and a
+    # tier move takes a single step
+    minrate = min(v.hot_rate, v.cold_rate) if v.cold_rate > 0 else float('inf')
     minbw = min(v.bw.values())
     B = max(math.ceil(o['est']) for o in v.obs.values())
     for name, o in v.obs.items():
-        B += math.ceil(o['dur']) + 2 * math.ceil(math.ceil(o['dur']) * o['rate'] / minrate) + L_O
+        B += math.ceil(o['dur']) + 2 * max(1 if minrate == float('inf') else 0,
+                                           math.ceil(math.ceil(o['dur']) * o['rate'] / minrate)) + L_O
         nodes = v.nodes(name)
         edges = v.edges(name)
         for n, nd in nodes.items():
@@ -229,6 +232,8 @@ def gen(seed, profile='general', big=False):
     nobs = pick('nobs', {1: 25, 2: 40, 3: 25, 4: 10})
     hot_rate = rng.choice([2, 5, 10])
     cold_rate = rng.choice([1, 2, 5, 10, 20])
+    if rng.random() < P.get('real_time', 0.04):
+        cold_rate = -1          # 'real-time' mode of the shipped real_time configuration
     pattern = pick('pattern', {'gaps': 25, 'b2b': 25, 'simul': 18, 'overlap': 27, 'crowd': 5})
     crowd_gap = 0
     if pattern == 'crowd':
@@ -492,7 +497,7 @@ PROFILES = {
               'buffer': {'ample': 95, 'wait': 5}, 'monitor': 'real',
               'dur': {1: 25, 2: 30, 3: 25, 4: 20}, 'unit': {'seconds': 90, 'custom': 10},
               'dists': ['normal', 'normal', 'poisson', 'uniform']},
-    'units': {'unit': {'custom': 55, 'minutes': 18, 'hours': 18, 'misspelt': 9}, 'hetero': 0.0, 'frac_start': 0.0, 'big_units': 0.4, 'zero_rate': 0.06,
+    'units': {'real_time': 0.0, 'unit': {'custom': 55, 'minutes': 18, 'hours': 18, 'misspelt': 9}, 'hetero': 0.0, 'frac_start': 0.0, 'big_units': 0.4, 'zero_rate': 0.06,
               'frac_rate': 0.0, 'frac_speed': 0.0,
               'comp': {1: 40, 2: 30, 3: 20, 4: 10},
               'dur': {1: 40, 2: 35, 3: 25}, 'buffer': {'ample': 95, 'wait': 5},
